@@ -241,26 +241,37 @@ def handleCfg (cmd : String) (args : List Sx) : Option String :=
       let an := analyseAst (fun c => us.contains c) ast {}
       some s!"ci={b01 (cfg.isCaseInsensitive an)} lit={b01 an.anyLiteral} up={b01 an.anyUppercase}"
     | _, _, _ => some "bad-op"
-  | "c11.build", [cfg, pats, tr, acc, opt, nrm] =>
-    -- `opt` is what the real optimiser returned; `nrm` is the tree the real smart constructors
-    -- produce for the model's raw tree (`raw=` in the reply; the harness checks that equation)
-    match parseCfg cfg, parsePats pats, parseHir tr, acc.bool?, parseSeq opt with
-    | some cfg, some pats, some tr, some acc, some opt =>
-      let norm : Hir → Hir := match nrm with
-        | .atom "-" => id
-        | x => match parseHir x with
-          | some h => fun _ => h
-          | none => id
-      match cfg.build pats tr acc (fun _ => opt) norm, cfg.build pats tr acc (fun _ => opt) id with
-      | .ok m, .ok raw =>
-        some s!"ok lt={showLT m.lineTerm} nm={toHex m.nonMatching} lits={showSeq m.fastLits} raw={showHir raw.hir}"
-      | .error e, _ => some (showBuildErr e)
-      | _, .error e => some (showBuildErr e)
-    | _, _, _, _, _ => some "bad-op"
+  | "c11.build", [cfg, pats, tr, acc, opt, .list (.atom "norm" :: pairs)] =>
+    -- `opt` is what the real optimiser returned; `(norm (raw normalised) …)` tabulates the real smart
+    -- constructors on the trees the model hands to them (the harness checks each pair by rebuilding `raw`)
+    match parseCfg cfg, parsePats pats, parseHir tr, acc.bool?, parseSeq opt,
+          pairs.mapM (fun p => match p with
+            | .list [a, b] => do pure (showHir (← parseHir a), (← parseHir b))
+            | _ => none) with
+    | some cfg, some pats, some tr, some acc, some opt, some tab =>
+      let norm : Hir → Hir := fun h =>
+        match tab.find? (fun p => p.1 == showHir h) with
+        | some (_, n) => n
+        | none => h
+      -- the trees the model asks `norm` about, in order: after the `\r` pass (CRLF only), the final one
+      let asked1 : String := match cfg.lineTerm with
+        | some .crlf => if cfg.isFixedStrings pats || cfg.banRejects tr then "-" else
+            match stripAscii tr 13 with
+            | .ok h1 => showHir h1
+            | .error _ => "-"
+        | _ => "-"
+      let asked2 : String := match cfg.configuredHir norm pats tr with
+        | .ok h0 => showHir (cfg.wrap h0)
+        | .error _ => "-"
+      match cfg.build pats tr acc (fun _ => opt) norm with
+      | .ok m =>
+        some s!"ok lt={showLT m.lineTerm} nm={toHex m.nonMatching} lits={showSeq m.fastLits} ask1={asked1} ask2={asked2}"
+      | .error e => some s!"{showBuildErr e} ask1={asked1}"
+    | _, _, _, _, _, _ => some "bad-op"
   | "c11.confhir", [cfg, pats, tr] =>
     match parseCfg cfg, parsePats pats, parseHir tr with
     | some cfg, some pats, some tr =>
-      match cfg.configuredHir pats tr with
+      match cfg.configuredHir id pats tr with
       | .ok h => some ("ok " ++ showHir h)
       | .error e => some (showBuildErr e)
     | _, _, _ => some "bad-op"
